@@ -344,9 +344,13 @@ func c01Encode(kind string, m *c01Msg) Fields {
 	return f
 }
 
-// c01Decode reads the structured message back out of in[2:] (EntryC01.decode_msg)
+// c01Decode reads the structured message back out of in[2:] (kind "cbig": in[4:])
+// (EntryC01.decode_msg)
 func c01Decode(in Fields) (*c01Msg, bool) {
 	i := 2
+	if in.S(0) == "cbig" {
+		i = 4
+	}
 	next := func() ([]byte, bool) {
 		if i >= len(in) {
 			return nil, false
@@ -482,8 +486,101 @@ func c01Exec(in Fields) (obs Fields) {
 		return c01Obs(l)
 	case "conn":
 		return c01ExecConn(in)
+	case "cbig":
+		return c01ExecBig(in)
 	}
 	return F("bad")
+}
+
+// the short ordinary message written right after a long one (EntryC01.follow_msg)
+func c01FollowRender(serial []byte) []byte {
+	return append([]byte(":fnick!fuser@fhost PRIVMSG #c01follow :serial "), serial...)
+}
+
+// "cbig": a LONG rendered line (around and beyond bufio's 4096-byte buffer) followed by a
+// short ordinary PRIVMSG, written by the in-memory server in one Write (chunk 0) or in
+// pieces of chunk bytes.  Observation: the first two lines the foreground handlers get,
+// in order (dispatch waits for a line's handlers before it takes the next line).
+func c01ExecBig(in Fields) Fields {
+	m, ok := c01Decode(in)
+	if !ok || len(in) < 4 {
+		return F("bad")
+	}
+	chunk := in.I(2)
+	if c01ws == nil {
+		c01ws = NewWireSession(nil)
+	}
+	ws := c01ws
+	names := []string{"PRIVMSG"}
+	for _, n := range []string{string(c01Upper(m.Verb)), "ACTION", "CTCP", "CTCPREPLY"} {
+		dup := false
+		for _, x := range names {
+			dup = dup || x == n
+		}
+		if !dup {
+			names = append(names, n)
+		}
+	}
+	ch := make(chan *client.Line, 64)
+	var rem []client.Remover
+	for _, n := range names {
+		rem = append(rem, ws.Conn.HandleFunc(n, func(c *client.Conn, l *client.Line) {
+			select {
+			case ch <- l.Copy():
+			default:
+			}
+		}))
+	}
+	defer func() {
+		for _, x := range rem {
+			x.Remove()
+		}
+	}()
+	wire := append(append([]byte{}, in[1]...), '\r', '\n')
+	wire = append(append(wire, c01FollowRender(in[3])...), '\r', '\n')
+	done := make(chan struct{})
+	go func() { // net.Pipe is synchronous
+		defer close(done)
+		ws.Srv.SetWriteDeadline(time.Now().Add(10 * time.Second))
+		if chunk <= 0 {
+			ws.Srv.Write(wire)
+			return
+		}
+		for k := 0; k < len(wire); k += chunk {
+			e := k + chunk
+			if e > len(wire) {
+				e = len(wire)
+			}
+			if _, err := ws.Srv.Write(wire[k:e]); err != nil {
+				return
+			}
+		}
+	}()
+	var got []*client.Line
+	wait := 5 * time.Second
+	for len(got) < 2 {
+		select {
+		case l := <-ch:
+			got = append(got, l)
+			wait = 2 * time.Second
+			continue
+		case <-time.After(wait):
+		}
+		break
+	}
+	<-done
+	if len(got) < 2 { // something was lost or cut: the next case gets a fresh session
+		ws.Close()
+		c01ws = nil
+	}
+	if len(got) == 0 {
+		return F("timeout")
+	}
+	obs := Fields{}
+	for _, l := range got {
+		obs = append(obs, c01Obs(l)...)
+	}
+	return obs
 }
 
 // "conn": rendered CR LF is written by the in-memory server; the observation is the line a
@@ -566,6 +663,32 @@ func c01Class(in Fields) string {
 	m, ok := c01Decode(in)
 	if !ok {
 		return in.S(0) + ":undecodable"
+	}
+	if in.S(0) == "cbig" {
+		n := len(in[1]) + 2 // with CR LF, as bufio sees it
+		size := "<=4096"
+		switch {
+		case n > 16384:
+			size = ">16384"
+		case n > 8192:
+			size = "8193-16384"
+		case n > 4096:
+			size = "4097-8192"
+		}
+		mode := "onewrite"
+		if in.I(2) > 0 {
+			mode = "chunked"
+		}
+		shape := "trailing"
+		switch {
+		case m.HasTags && len(m.Mids) == 14:
+			shape = "mixed"
+		case m.HasTags:
+			shape = "tags"
+		case len(m.Mids) == 14:
+			shape = "middles"
+		}
+		return "cbig:" + size + ":" + mode + ":" + shape
 	}
 	tags := "notags"
 	if m.HasTags {
@@ -1059,6 +1182,152 @@ func c01GenMsg(r *Rand, conn bool) *c01Msg {
 	}
 }
 
+// ---------- long lines (kind "cbig") ----------
+// escaped length of a tag value
+func c01EscLen(v []byte) int { return len(c01Escape(v)) }
+
+// a tag value whose ESCAPED form has about n bytes: letters with escapes sprinkled in
+func c01LongVal(r *Rand, n int) []byte {
+	special := []byte("; \\\r\n=:")
+	v := []byte{}
+	l := 0
+	for l < n {
+		switch x := r.Intn(100); {
+		case x < 12 && l+2 <= n:
+			v = append(v, special[r.Intn(len(special))])
+		case x < 16:
+			v = append(v, byte(1+r.Intn(255)))
+		default:
+			v = append(v, c01Letters[r.Intn(len(c01Letters))])
+		}
+		l = c01EscLen(v)
+	}
+	return v
+}
+
+func c01LongWord(r *Rand, n int) []byte {
+	if n < 1 {
+		n = 1
+	}
+	p := c01Word(r, n, n, c01MidAlpha)
+	if p[0] == ':' {
+		p[0] = 'm'
+	}
+	return p
+}
+
+// c01GenBig: a well-formed message whose rendered length is EXACTLY target bytes.
+// layout 0: huge tag section, 1: long trailing, 2: 14 long middles, 3: all three.
+func c01GenBig(r *Rand, target, layout int, serial []byte) *c01Msg {
+	for {
+		m := &c01Msg{}
+		c01GenSrc(r, m, 2)
+		m.Verb = []byte(r.Pick(c01ConnVerbs))
+		m.HasTrail = true
+		m.Trail = append([]byte("big "), serial...)
+		m.Trail = append(m.Trail, ' ')
+		base := len(c01Render(m))
+		budget := target - base - 40
+		if budget < 0 {
+			budget = 0
+		}
+		tagB, midB := 0, 0
+		switch layout {
+		case 0:
+			tagB = budget
+		case 2:
+			midB = budget
+		case 3:
+			tagB, midB = budget/3, budget/3
+		}
+		if tagB > 0 {
+			m.HasTags = true
+			used, i := 0, 0
+			for used < tagB-30 {
+				k := append([]byte("t"+strconv.Itoa(i)+"."), c01GenKey(r)...)
+				if i > 2 && r.Chance(10) { // duplicate key: last wins
+					k = append([]byte{}, m.Tags[r.Intn(i)].Key...)
+				}
+				vl := r.Range(20, 700)
+				if rest := tagB - used - len(k) - 2; vl > rest {
+					vl = rest
+				}
+				if vl < 0 {
+					vl = 0
+				}
+				t := c01Tag{Key: k, HasVal: true, Val: c01LongVal(r, vl)}
+				if r.Chance(5) {
+					t = c01Tag{Key: k}
+				}
+				m.Tags = append(m.Tags, t)
+				used += len(k) + 2 + c01EscLen(t.Val)
+				i++
+			}
+		}
+		if midB > 0 {
+			per := midB/14 - 2
+			for i := 0; i < 14; i++ {
+				m.Mids = append(m.Mids, c01Mid{Extra: c01GenExtra(r) / 2, P: c01LongWord(r, per)})
+			}
+		}
+		// pad to the exact length: the trailing (layouts 1, 3), the last tag value (0), the last middle (2)
+		d := target - len(c01Render(m))
+		if d < 0 {
+			continue
+		}
+		pad := bytes.Repeat([]byte("x"), d)
+		switch {
+		case layout == 0 && len(m.Tags) > 0 && m.Tags[len(m.Tags)-1].HasVal:
+			t := &m.Tags[len(m.Tags)-1]
+			t.Val = append(t.Val, pad...)
+		case layout == 2 && len(m.Mids) > 0:
+			p := &m.Mids[len(m.Mids)-1]
+			p.P = append(p.P, pad...)
+		default:
+			for i := range pad { // words and spaces, " :" now and then
+				if i%9 == 8 {
+					pad[i] = ' '
+				} else if i%50 == 9 {
+					pad[i] = ':'
+				}
+			}
+			m.Trail = append(m.Trail, pad...)
+		}
+		if c01Wf(m) && len(c01Render(m)) == target {
+			return m
+		}
+	}
+}
+
+var c01BigChunks = []int{1, 3, 64, 500, 1500, 4095, 4097}
+
+// every run: rendered lengths around bufio's 4096-byte buffer (the line with CR LF is
+// rendered+2 bytes: 4094 just fits) and well beyond it, each once in one Write and once
+// in pieces, all four layouts rotating
+func c01GenBigCases(r *Rand, emit func(Fields)) {
+	sizes := []int{4094, 4095, 4096, 4097, r.Range(4090, 4093), r.Range(4098, 4100), r.Range(4090, 4100),
+		r.Range(4101, 4999), 5000, r.Range(5001, 8190), 8191 + 510, 20000}
+	serial := 0
+	for i, sz := range sizes {
+		for mode := 0; mode < 2; mode++ {
+			serial++
+			ser := []byte(strconv.Itoa(serial) + "-" + strconv.Itoa(r.Intn(1000000)))
+			m := c01GenBig(r, sz, (i+mode)%4, ser)
+			chunk := 0
+			if mode == 1 {
+				chunk = c01BigChunks[r.Intn(len(c01BigChunks))]
+			}
+			in := F("cbig", c01Render(m), chunk, ser)
+			in = append(in, c01Encode("x", m)[2:]...)
+			d, ok := c01Decode(in)
+			if !ok || !c01Wf(d) || !bytes.Equal(c01Render(d), in[1]) || len(in[1]) != sz {
+				panic("c01Gen: emitted cbig case is not in the claim")
+			}
+			emit(in)
+		}
+	}
+}
+
 func c01Gen(r *Rand, tier string, scale int, emit func(Fields)) {
 	if scale == 0 {
 		scale = 3000
@@ -1083,4 +1352,5 @@ func c01Gen(r *Rand, tier string, scale int, emit func(Fields)) {
 		}
 		emit(in)
 	}
+	c01GenBigCases(r, emit)
 }
